@@ -1,8 +1,960 @@
-//! Property check C06 (see /verif/DESIGN.md §4).
-use mc::{Level, Report};
+//! Property check C06 — "the state root commits to exactly the reachable state; independent
+//! computations agree; a WSC round-trip denotes the same state" (see /verif/DESIGN.md §4 C06).
+//!
+//! Sub-checks (each reports under its own signature prefix):
+//!  (1) `state-root-…`      root is a function of, and injective on, the abstract reachable content;
+//!  (2) `construction-order…` every construction order / detour of the same abstract state gives the
+//!                           same root, accumulator root and WSC bytes;
+//!  (3) `accumulator-…`     the columnar accumulator's root equals the legacy root on every state, and
+//!                           accumulator(apply ops) equals accumulator(store after the same ops);
+//!  (4) `wsc-…`             build_one_warp_input → write_wsc_one_warp → from_bytes → validate_wsc →
+//!                           view decodes back to the same abstract instance;
+//!  (5) the same on a universe of adversarial raw ids (`U_RAW`).
+
+use std::collections::{BTreeMap, BTreeSet, HashSet};
+
+use mc::{json, Level, Report, Value};
+use pairlib::*;
+use rayon::prelude::*;
+use warp_core::verif_hooks as hooks;
+use warp_core::wsc::{build_one_warp_input, validate_wsc, write_wsc_one_warp, WscFile};
+use warp_core::{NodeKey, WarpState};
+use world::{RefAtt, RefEdge, RefInstance, RefSlot, RefState, Spec, Universe, E, N, T, W};
+
+// ---------------------------------------------------------------------------------------------
+// (5) adversarial raw-id universe
+// ---------------------------------------------------------------------------------------------
+
+/// 32-byte id whose first 8 bytes are the little-endian count `k` and the rest zero.
+fn le_count_id(k: u64) -> [u8; 32] {
+    let mut b = [0u8; 32];
+    b[..8].copy_from_slice(&k.to_le_bytes());
+    b
+}
+
+/// `U_RAW`: every id table uses the same "looks like a little-endian count" byte strings, so a
+/// node id, an edge id, a type id and a warp id can be byte-identical, and attachment payloads
+/// imitate record fragments of the hash pre-image (an id, a count, a whole node record).
+fn uni_raw() -> Uni {
+    let u = Universe::raw(
+        vec![le_count_id(1), le_count_id(2)],
+        vec![le_count_id(1), le_count_id(2), le_count_id(3)],
+        vec![le_count_id(1), le_count_id(2)],
+        vec![le_count_id(0), le_count_id(1), le_count_id(2)],
+    );
+    let edge = |from: N, to: N, ty: T| Some(RefEdge { from, to, ty });
+    let atom = |t: T, b: Vec<u8>| Some(RefAtt::Atom(t, b));
+    // payload imitating "node id ‖ type id ‖ 00" (a node record without attachment)
+    let mut fake_node = Vec::new();
+    fake_node.extend_from_slice(&le_count_id(2));
+    fake_node.extend_from_slice(&le_count_id(0));
+    fake_node.push(0);
+    // payload imitating "count=1 ‖ edge id[..23]" (31 bytes: makes a node record as long as a 1-edge bucket)
+    let mut fake_bucket = Vec::new();
+    fake_bucket.extend_from_slice(&1u64.to_le_bytes());
+    fake_bucket.extend_from_slice(&le_count_id(1)[..23]);
+    let spec = Spec {
+        instances: vec![
+            (
+                0,
+                vec![Some(RefInstance {
+                    root: 0,
+                    parent: None,
+                })],
+            ),
+            (
+                1,
+                vec![
+                    None,
+                    Some(RefInstance {
+                        root: 0,
+                        parent: Some(RefSlot::Node(0, 1)),
+                    }),
+                ],
+            ),
+        ],
+        nodes: vec![
+            ((0, 0), vec![Some(0), Some(1)]),
+            ((0, 1), vec![None, Some(0), Some(1)]),
+            ((0, 2), vec![None, Some(0)]),
+            ((1, 0), vec![None, Some(0)]),
+        ],
+        edges: vec![
+            (
+                (0, 0),
+                vec![
+                    None,
+                    edge(0, 1, 0),
+                    edge(0, 1, 1),
+                    edge(0, 2, 0),
+                    edge(1, 2, 1),
+                    edge(1, 0, 0),
+                ],
+            ),
+            ((0, 1), vec![None, edge(0, 1, 0), edge(0, 2, 1)]),
+        ],
+        atts: vec![
+            (
+                RefSlot::Node(0, 0),
+                vec![None, atom(1, 1u64.to_le_bytes().to_vec()), atom(0, fake_node)],
+            ),
+            (
+                RefSlot::Node(0, 1),
+                vec![None, atom(0, le_count_id(1).to_vec()), Some(RefAtt::Descend(1))],
+            ),
+            (
+                RefSlot::Edge(0, 0),
+                vec![None, atom(1, Vec::new()), atom(0, fake_bucket)],
+            ),
+        ],
+    };
+    Uni::from_spec("U_RAW", 0, u, &spec)
+}
+
+// ---------------------------------------------------------------------------------------------
+// per-state work
+// ---------------------------------------------------------------------------------------------
+
+#[derive(Default)]
+struct StateOut {
+    root: [u8; 32],
+    acc_root: [u8; 32],
+    acc_matches_legacy: bool,
+    strict_subset: bool,
+    variants: u64,
+    variants_physically_different: u64,
+    wsc_instances: u64,
+    wsc_bytes_total: u64,
+    /// accumulator's WSC bytes == writer's bytes for the root instance (observation only)
+    acc_wsc_equal: Option<bool>,
+    fully_reachable_root_instance: bool,
+    /// (signature, human detail)
+    viol: Vec<(String, String)>,
+    machinery: Vec<String>,
+}
+
+fn pos32<TId: Copy>(table: &[TId], get: impl Fn(&TId) -> [u8; 32], id: &[u8; 32]) -> Option<u8> {
+    table.iter().position(|x| &get(x) == id).map(|i| i as u8)
+}
+
+/// Projection of `s` onto instance `w` (what one single-warp WSC file can denote).
+fn project(s: &RefState, w: W) -> RefState {
+    let mut o = RefState::default();
+    if let Some(i) = s.instances.get(&w) {
+        o.instances.insert(
+            w,
+            RefInstance {
+                root: i.root,
+                parent: None,
+            },
+        );
+    }
+    for ((nw, n), t) in &s.nodes {
+        if *nw == w {
+            o.nodes.insert((*nw, *n), *t);
+        }
+    }
+    for ((ew, e), r) in &s.edges {
+        if *ew == w {
+            o.edges.insert((*ew, *e), *r);
+        }
+    }
+    for (slot, a) in &s.atts {
+        let sw = match slot {
+            RefSlot::Node(x, _) | RefSlot::Edge(x, _) => *x,
+        };
+        if sw == w {
+            o.atts.insert(*slot, a.clone());
+        }
+    }
+    o
+}
+
+/// WSC bytes of instance `w` of `state`, or a violation signature.
+fn wsc_bytes(u: &Universe, s: &RefState, state: &WarpState, w: W) -> Result<Vec<u8>, (String, String)> {
+    let store = state
+        .store(&u.warp(w))
+        .ok_or_else(|| ("wsc:machinery".to_string(), "store missing".to_string()))?;
+    let root = u.node(s.instances[&w].root);
+    let input = mc::catch(|| build_one_warp_input(store, root))
+        .map_err(|p| ("wsc-build-panics".to_string(), p))?;
+    match mc::catch(|| write_wsc_one_warp(&input, [0u8; 32], 0)) {
+        Ok(Ok(b)) => Ok(b),
+        Ok(Err(e)) => Err(("wsc-write-fails".into(), format!("{e}"))),
+        Err(p) => Err(("wsc-write-panics".into(), p)),
+    }
+}
+
+/// Decode WSC bytes through the public view accessors back into an abstract instance.
+fn wsc_decode(u: &Universe, w: W, bytes: &[u8]) -> Result<RefState, (String, String)> {
+    let file = WscFile::from_bytes(bytes.to_vec())
+        .map_err(|e| ("wsc-from_bytes-rejects-writer-output".to_string(), format!("{e:?}")))?;
+    validate_wsc(&file).map_err(|e| {
+        let full = format!("{e:?}");
+        let variant: String = full
+            .chars()
+            .take_while(|c| c.is_ascii_alphanumeric())
+            .collect();
+        (format!("wsc-validate-rejects-writer-output:{variant}"), full)
+    })?;
+    let bad = |what: &str| ("wsc-roundtrip-differs:".to_string() + what, what.to_string());
+    if file.warp_count() != 1 {
+        return Err(bad("warp-count"));
+    }
+    let view = file
+        .warp_view(0)
+        .map_err(|e| ("wsc-warp_view-fails".to_string(), format!("{e:?}")))?;
+    if view.warp_id() != &u.warp(w).0 {
+        return Err(bad("warp-id"));
+    }
+    let mut o = RefState::default();
+    let root = pos32(&u.nodes, |x| x.0, view.root_node_id()).ok_or_else(|| bad("root-node-id"))?;
+    o.instances.insert(w, RefInstance { root, parent: None });
+    let att_of = |row: &warp_core::wsc::types::AttRow| -> Result<RefAtt, (String, String)> {
+        if row.is_atom() {
+            let t = pos32(&u.types, |x| x.0, &row.type_or_warp).ok_or_else(|| bad("attachment-type-id"))?;
+            let blob = view
+                .blob_for_attachment(row)
+                .ok_or_else(|| bad("attachment-blob-range"))?;
+            Ok(RefAtt::Atom(t, blob.to_vec()))
+        } else if row.is_descend() {
+            let cw = pos32(&u.warps, |x| x.0, &row.type_or_warp).ok_or_else(|| bad("descend-warp-id"))?;
+            Ok(RefAtt::Descend(cw))
+        } else {
+            Err(bad("attachment-tag"))
+        }
+    };
+    for (ix, row) in view.nodes().iter().enumerate() {
+        let n = pos32(&u.nodes, |x| x.0, &row.node_id).ok_or_else(|| bad("node-id"))?;
+        let t = pos32(&u.types, |x| x.0, &row.node_type).ok_or_else(|| bad("node-type"))?;
+        if o.nodes.insert((w, n), t).is_some() {
+            return Err(bad("duplicate-node"));
+        }
+        let atts = view.node_attachments(ix);
+        if atts.len() > 1 {
+            return Err(bad("node-attachment-count"));
+        }
+        if let Some(a) = atts.first() {
+            o.atts.insert(RefSlot::Node(w, n), att_of(a)?);
+        }
+        if view.node_ix(&row.node_id) != Some(ix) {
+            return Err(bad("node_ix-lookup"));
+        }
+    }
+    for (ix, row) in view.edges().iter().enumerate() {
+        let e = pos32(&u.edges, |x| x.0, &row.edge_id).ok_or_else(|| bad("edge-id"))?;
+        let from = pos32(&u.nodes, |x| x.0, &row.from_node_id).ok_or_else(|| bad("edge-from"))?;
+        let to = pos32(&u.nodes, |x| x.0, &row.to_node_id).ok_or_else(|| bad("edge-to"))?;
+        let ty = pos32(&u.types, |x| x.0, &row.edge_type).ok_or_else(|| bad("edge-type"))?;
+        if o.edges.insert((w, e), RefEdge { from, to, ty }).is_some() {
+            return Err(bad("duplicate-edge"));
+        }
+        let atts = view.edge_attachments(ix);
+        if atts.len() > 1 {
+            return Err(bad("edge-attachment-count"));
+        }
+        if let Some(a) = atts.first() {
+            o.atts.insert(RefSlot::Edge(w, e), att_of(a)?);
+        }
+        if view.edge_ix(&row.edge_id) != Some(ix) {
+            return Err(bad("edge_ix-lookup"));
+        }
+    }
+    // adjacency table agrees with the edge table
+    for (ix, row) in view.nodes().iter().enumerate() {
+        let mut listed: BTreeSet<[u8; 32]> = BTreeSet::new();
+        for oe in view.out_edges_for_node(ix) {
+            let Some(er) = view.edges().get(oe.edge_ix() as usize) else {
+                return Err(bad("out-edge-index-range"));
+            };
+            if er.edge_id != oe.edge_id || er.from_node_id != row.node_id {
+                return Err(bad("out-edge-ref"));
+            }
+            listed.insert(oe.edge_id);
+        }
+        let expect: BTreeSet<[u8; 32]> = view
+            .edges()
+            .iter()
+            .filter(|e| e.from_node_id == row.node_id)
+            .map(|e| e.edge_id)
+            .collect();
+        if listed != expect {
+            return Err(bad("out-edge-set"));
+        }
+    }
+    Ok(o)
+}
+
+/// Every alternative construction of the same abstract state: (label, store).
+fn construction_variants(u: &Universe, s: &RefState) -> Vec<(String, WarpState)> {
+    let mut out = Vec::new();
+    out.push(("reverse-insertion".to_string(), u.build_ordered(s, true)));
+    let mut counts: BTreeSet<usize> = BTreeSet::new();
+    for w in s.instances.keys() {
+        counts.insert(s.edges.keys().filter(|(ew, _)| ew == w).count());
+    }
+    for k in counts {
+        if (2..=4).contains(&k) {
+            for p in mc::enumerate::all_permutations(k) {
+                for rev in [false, true] {
+                    out.push((format!("edge-permutation{}", if rev { "+reverse" } else { "" }), u.build_with(s, rev, &p)));
+                }
+            }
+        }
+    }
+    // detours on the canonical build
+    for ((w, e), rec) in &s.edges {
+        // delete + re-insert (the edge moves to the end of its bucket; attachment must be re-set)
+        let mut st = u.build(s);
+        if let Some(store) = st.store_mut(&u.warp(*w)) {
+            store.delete_edge_exact(u.node(rec.from), u.edge(*e));
+            store.insert_edge(u.node(rec.from), u.edge_record(*e, rec));
+            if let Some(a) = s.atts.get(&RefSlot::Edge(*w, *e)) {
+                store.set_edge_attachment(u.edge(*e), Some(u.att_value(a)));
+            }
+        }
+        out.push(("detour:edge-delete-reinsert".to_string(), st));
+        // migrate to every other existing source bucket and back (same id; attachment stays)
+        for ((nw, n), _) in &s.nodes {
+            if nw != w || *n == rec.from {
+                continue;
+            }
+            let mut st = u.build(s);
+            if let Some(store) = st.store_mut(&u.warp(*w)) {
+                let moved = RefEdge { from: *n, ..*rec };
+                store.insert_edge(u.node(*n), u.edge_record(*e, &moved));
+                store.insert_edge(u.node(rec.from), u.edge_record(*e, rec));
+            }
+            out.push(("detour:edge-migrate-and-back".to_string(), st));
+        }
+    }
+    for ((w, n), t) in &s.nodes {
+        // re-insert the node record (upsert of an equal record) and retype-and-back
+        let mut st = u.build(s);
+        if let Some(store) = st.store_mut(&u.warp(*w)) {
+            store.insert_node(u.node(*n), warp_core::NodeRecord { ty: u.ty((*t + 1) % 2) });
+            store.insert_node(u.node(*n), warp_core::NodeRecord { ty: u.ty(*t) });
+        }
+        out.push(("detour:node-retype-and-back".to_string(), st));
+    }
+    for (slot, a) in &s.atts {
+        if matches!(a, RefAtt::Descend(_)) {
+            continue;
+        }
+        let mut st = u.build(s);
+        let (w, is_node, n, e) = match slot {
+            RefSlot::Node(w, n) => (*w, true, *n, 0),
+            RefSlot::Edge(w, e) => (*w, false, 0, *e),
+        };
+        if let Some(store) = st.store_mut(&u.warp(w)) {
+            if is_node {
+                store.set_node_attachment(u.node(n), None);
+                store.set_node_attachment(u.node(n), Some(u.att_value(a)));
+            } else {
+                store.set_edge_attachment(u.edge(e), None);
+                store.set_edge_attachment(u.edge(e), Some(u.att_value(a)));
+            }
+        }
+        out.push(("detour:attachment-clear-and-set".to_string(), st));
+    }
+    out
+}
+
+fn check_state(u: &Universe, s: &RefState) -> StateOut {
+    let mut o = StateOut::default();
+    let real = u.build(s);
+    let rk: NodeKey = u.root_key(s);
+    o.root = hooks::snapshot::state_root(&real, &rk);
+    let content = s.reachable_content();
+    o.strict_subset = &content != s;
+    // (3a) second implementation
+    let canonical_acc = match mc::catch(|| hooks::snapshot_accum::accumulator_root(&real, &rk)) {
+        Ok((root, bytes)) => {
+            o.acc_root = root;
+            o.acc_matches_legacy = root == o.root;
+            Some(bytes)
+        }
+        Err(p) => {
+            o.viol.push(("accumulator-panics-on-a-well-formed-state".into(), p));
+            None
+        }
+    };
+    // (4) WSC per instance of the canonical build
+    let mut canonical_wsc: BTreeMap<W, Vec<u8>> = BTreeMap::new();
+    for w in s.instances.keys() {
+        match wsc_bytes(u, s, &real, *w) {
+            Err(v) => o.viol.push(v),
+            Ok(bytes) => {
+                o.wsc_instances += 1;
+                o.wsc_bytes_total += bytes.len() as u64;
+                match wsc_decode(u, *w, &bytes) {
+                    Err(v) => o.viol.push(v),
+                    Ok(dec) => {
+                        let want = project(s, *w);
+                        if dec != want {
+                            let sigs = discrepancy_sigs(&want, &want, &dec);
+                            let what = sigs
+                                .first()
+                                .map(|x| x.split(':').next().unwrap_or("").trim_start_matches("ok-but-").to_string())
+                                .unwrap_or_else(|| "content".into());
+                            o.viol.push((
+                                format!("wsc-roundtrip-differs:{what}"),
+                                format!("decoded {:?}", dec.to_json()),
+                            ));
+                        }
+                    }
+                }
+                canonical_wsc.insert(*w, bytes);
+            }
+        }
+    }
+    // observation: accumulator's WSC bytes vs the store writer's bytes (root instance)
+    if let (Some(ab), Some(wb)) = (&canonical_acc, canonical_wsc.get(&0)) {
+        o.acc_wsc_equal = Some(ab == wb);
+        let p0 = project(s, 0);
+        let c0 = project(&content, 0);
+        o.fully_reachable_root_instance = p0 == c0;
+    }
+    // (2) construction orders and detours
+    let canonical_dbg = format!("{real:?}");
+    for (label, st) in construction_variants(u, s) {
+        o.variants += 1;
+        match u.read(&st) {
+            Ok(r) if &r == s => {}
+            Ok(_) | Err(_) => {
+                o.machinery.push(format!("variant {label} does not denote the same abstract state"));
+                continue;
+            }
+        }
+        if format!("{st:?}") != canonical_dbg {
+            o.variants_physically_different += 1;
+        }
+        let root = hooks::snapshot::state_root(&st, &rk);
+        if root != o.root {
+            o.viol.push((
+                format!("construction-order:state-root-differs:{label}"),
+                format!("canonical {} vs {label} {}", mc::hex(&o.root), mc::hex(&root)),
+            ));
+        }
+        if canonical_acc.is_some() {
+            match mc::catch(|| hooks::snapshot_accum::accumulator_root(&st, &rk)) {
+                Ok((r2, b2)) => {
+                    if r2 != o.acc_root {
+                        o.viol.push((
+                            format!("construction-order:accumulator-root-differs:{label}"),
+                            String::new(),
+                        ));
+                    }
+                    if Some(&b2) != canonical_acc.as_ref() {
+                        o.viol.push((
+                            format!("construction-order:accumulator-wsc-bytes-differ:{label}"),
+                            String::new(),
+                        ));
+                    }
+                }
+                Err(p) => o.viol.push(("accumulator-panics-on-a-well-formed-state".into(), p)),
+            }
+        }
+        for w in s.instances.keys() {
+            match wsc_bytes(u, s, &st, *w) {
+                Err(v) => o.viol.push(v),
+                Ok(bytes) => {
+                    if canonical_wsc.get(w) != Some(&bytes) {
+                        o.viol.push((
+                            format!("construction-order:wsc-bytes-differ:{label}"),
+                            String::new(),
+                        ));
+                    }
+                }
+            }
+        }
+    }
+    o
+}
+
+fn state_features(s: &RefState) -> String {
+    let mut f = Vec::new();
+    if s.instances.len() > 1 {
+        f.push("multi-instance");
+    }
+    if &s.reachable_content() != s {
+        f.push("unreachable-content");
+    }
+    if s.atts.keys().any(|k| matches!(k, RefSlot::Edge(..))) {
+        f.push("edge-attachment");
+    }
+    if s.atts.keys().any(|k| matches!(k, RefSlot::Node(..))) {
+        f.push("node-attachment");
+    }
+    if !s.edges.is_empty() {
+        f.push("edges");
+    }
+    if f.is_empty() {
+        f.push("root-only");
+    }
+    f.join("+")
+}
+
+/// Number of element slots in which two abstract states differ.
+fn content_distance(a: &RefState, b: &RefState) -> usize {
+    fn d<K: Ord + Clone, V: PartialEq>(x: &BTreeMap<K, V>, y: &BTreeMap<K, V>) -> usize {
+        let keys: BTreeSet<K> = x.keys().chain(y.keys()).cloned().collect();
+        keys.iter().filter(|k| x.get(k) != y.get(k)).count()
+    }
+    d(&a.instances, &b.instances) + d(&a.nodes, &b.nodes) + d(&a.edges, &b.edges) + d(&a.atts, &b.atts)
+}
+
+struct Tot {
+    states: u64,
+    strict_subset: u64,
+    contents: u64,
+    contents_shared: u64,
+    variants: u64,
+    variants_phys: u64,
+    wsc_instances: u64,
+    acc_mismatch: u64,
+    acc_total: u64,
+    acc_wsc_equal: u64,
+    acc_wsc_differs: u64,
+    acc_wsc_equal_iff_fully_reachable: bool,
+    pairs: u64,
+    pairs_ok: u64,
+    pairs_acc_eq_acc: u64,
+    pairs_acc_eq_legacy: u64,
+    viol: BTreeMap<String, (u64, Value)>,
+    keys: HashSet<u128>,
+}
+
+fn add_viol(t: &mut Tot, sig: &str, detail: impl FnOnce() -> Value) {
+    match t.viol.get_mut(sig) {
+        Some(e) => e.0 += 1,
+        None => {
+            t.viol.insert(sig.to_string(), (1, detail()));
+        }
+    }
+}
+
+fn state_phase(r: &Report, t: &mut Tot, uni: &Uni) {
+    let t0 = r.elapsed_s();
+    let prefix = if uni.name == "U_RAW" { "raw-ids:" } else { "" };
+    let outs: Vec<StateOut> = uni.states.par_iter().map(|s| check_state(&uni.u, s)).collect();
+    let case = |i: usize| json!({"universe": uni.name, "level": uni.level, "state_index": i, "state": uni.states[i].to_json()});
+
+    // (1) function / injectivity maps, in index order
+    let contents: Vec<RefState> = uni.states.par_iter().map(|s| s.reachable_content()).collect();
+    let mut by_content: BTreeMap<&RefState, Vec<usize>> = BTreeMap::new();
+    let mut by_root: BTreeMap<[u8; 32], Vec<usize>> = BTreeMap::new();
+    for i in 0..uni.states.len() {
+        by_content.entry(&contents[i]).or_default().push(i);
+        by_root.entry(outs[i].root).or_default().push(i);
+    }
+    t.contents += by_content.len() as u64;
+    for (_, idxs) in &by_content {
+        if idxs.len() > 1 {
+            t.contents_shared += 1;
+        }
+        let first = idxs[0];
+        for &i in &idxs[1..] {
+            if outs[i].root != outs[first].root {
+                let tags = flag_names(pair_flags(&uni.states[first], &uni.states[i])).join(",");
+                add_viol(t, &format!("{prefix}state-root-differs-for-equal-reachable-content:unreachable-change={tags}"), || {
+                    json!({"case": {"kind": "two-states", "universe": uni.name, "level": uni.level, "i": first, "j": i,
+                           "state_i": uni.states[first].to_json(), "state_j": uni.states[i].to_json(),
+                           "reachable_content": contents[i].to_json()},
+                           "root_i": mc::hex(&outs[first].root), "root_j": mc::hex(&outs[i].root)})
+                });
+            }
+        }
+    }
+    for (root, idxs) in &by_root {
+        // distinct contents under this root
+        let mut reps: Vec<usize> = Vec::new();
+        for &i in idxs {
+            if !reps.iter().any(|&j| contents[j] == contents[i]) {
+                reps.push(i);
+            }
+        }
+        for k in 1..reps.len() {
+            let i = reps[k];
+            // nearest earlier colliding content names the class
+            let j = *reps[..k]
+                .iter()
+                .min_by_key(|&&j| (content_distance(&contents[j], &contents[i]), j))
+                .unwrap_or(&reps[0]);
+            let tags = flag_names(pair_flags(&contents[j], &contents[i])).join(",");
+            add_viol(t, &format!("{prefix}state-root-collision:reachable-content-differs-in={tags}"), || {
+                json!({"case": {"kind": "two-states", "universe": uni.name, "level": uni.level, "i": j, "j": i,
+                       "state_i": uni.states[j].to_json(), "state_j": uni.states[i].to_json(),
+                       "reachable_i": contents[j].to_json(), "reachable_j": contents[i].to_json()},
+                       "shared_root": mc::hex(root)})
+            });
+        }
+    }
+
+    // (2)(3a)(4) per-state results
+    let mut acc_mismatch_first: Option<usize> = None;
+    let mut acc_mismatch = 0u64;
+    let mut wsc_eq_consistent = true;
+    for (i, o) in outs.iter().enumerate() {
+        t.states += 1;
+        t.keys.insert(Report::key(format!("{}|{}|{i}", uni.name, uni.level).as_bytes()));
+        if o.strict_subset {
+            t.strict_subset += 1;
+        }
+        t.variants += o.variants;
+        t.variants_phys += o.variants_physically_different;
+        t.wsc_instances += o.wsc_instances;
+        t.acc_total += 1;
+        if !o.acc_matches_legacy {
+            acc_mismatch += 1;
+            if acc_mismatch_first.is_none() {
+                acc_mismatch_first = Some(i);
+            }
+        }
+        match o.acc_wsc_equal {
+            Some(true) => t.acc_wsc_equal += 1,
+            Some(false) => t.acc_wsc_differs += 1,
+            None => {}
+        }
+        if let Some(eq) = o.acc_wsc_equal {
+            if eq != o.fully_reachable_root_instance {
+                wsc_eq_consistent = false;
+            }
+        }
+        for m in &o.machinery {
+            r.machinery_error(&format!("{} state {i}: {m}", uni.name));
+        }
+        for (sig, human) in &o.viol {
+            let sig = format!("{prefix}{sig}");
+            add_viol(t, &sig, || json!({"case": case(i), "detail": human}));
+        }
+    }
+    t.acc_wsc_equal_iff_fully_reachable &= wsc_eq_consistent;
+    t.acc_mismatch += acc_mismatch;
+    if acc_mismatch == uni.states.len() as u64 && acc_mismatch > 0 {
+        let i = acc_mismatch_first.unwrap_or(0);
+        let e = t
+            .viol
+            .entry("accumulator-root!=legacy-root:all-states".to_string())
+            .or_insert_with(|| {
+                (0, json!({"case": case(i), "legacy_root": mc::hex(&outs[i].root), "accumulator_root": mc::hex(&outs[i].acc_root),
+                           "note": "differs for every state of every universe evaluated"}))
+            });
+        e.0 += acc_mismatch;
+    } else if acc_mismatch > 0 {
+        for (i, o) in outs.iter().enumerate() {
+            if !o.acc_matches_legacy {
+                let sig = format!("{prefix}accumulator-root!=legacy-root:states-with:{}", state_features(&uni.states[i]));
+                add_viol(t, &sig, || json!({"case": case(i), "legacy_root": mc::hex(&o.root), "accumulator_root": mc::hex(&o.acc_root)}));
+            }
+        }
+    }
+    if let Some(s) = uni.states.iter().position(|s| &s.reachable_content() != s && s.edges.len() >= 2) {
+        r.sample(json!({"kind": "state", "universe": uni.name, "state": uni.states[s].to_json(),
+                        "reachable_content": contents[s].to_json(), "state_root": mc::hex(&outs[s].root),
+                        "accumulator_root": mc::hex(&outs[s].acc_root), "construction_variants": outs[s].variants}));
+    }
+    r.note(
+        &format!("states:{}{}", uni.name, uni.level),
+        json!({"states": uni.states.len(), "raw_product": uni.raw, "distinct_reachable_contents": by_content.len(),
+               "distinct_roots": by_root.len(),
+               "states_with_unreachable_content": outs.iter().filter(|o| o.strict_subset).count(),
+               "accumulator_root_mismatches": acc_mismatch,
+               "construction_variants": outs.iter().map(|o| o.variants).sum::<u64>(),
+               "wall_s": ((r.elapsed_s() - t0) * 10.0).round() / 10.0}),
+    );
+}
+
+// ---------------------------------------------------------------------------------------------
+// (3b) accumulator applying ops vs the store applying the same ops
+// ---------------------------------------------------------------------------------------------
+
+#[derive(Default)]
+struct PairAcc {
+    pairs: u64,
+    ok: u64,
+    acc_eq_acc: u64,
+    acc_eq_legacy: u64,
+    /// symptom -> (op-kind bits, case) occurrences
+    bad: Vec<(&'static str, u8, CaseId)>,
+}
+
+fn pair_phase(r: &Report, t: &mut Tot, uni: &Uni, maxd: Option<u32>) {
+    let t0 = r.elapsed_s();
+    let pre = precompute(uni);
+    let sv = slot_vectors(&uni.states);
+    let n = uni.states.len();
+    let parts: Vec<PairAcc> = (0..n)
+        .into_par_iter()
+        .map(|ai| {
+            let mut acc = PairAcc::default();
+            if r.over_budget() {
+                return acc;
+            }
+            let a = &uni.states[ai];
+            for bi in 0..n {
+                let d = distance(&sv.vecs[ai], &sv.vecs[bi]);
+                if let Some(m) = maxd {
+                    if d > m {
+                        continue;
+                    }
+                }
+                if ai == bi {
+                    continue;
+                }
+                let b = &uni.states[bi];
+                acc.pairs += 1;
+                let ev = eval_pair(&uni.u, a, &pre[ai].real, b, &pre[bi].real, &pre[bi].root);
+                let Some(st) = &ev.result else { continue };
+                acc.ok += 1;
+                let rk = pre[bi].root_key;
+                let legacy = hooks::snapshot::state_root(st, &rk);
+                let case = CaseId {
+                    root_equal: false,
+                    distance: d,
+                    size: state_size(a) + state_size(b),
+                    a: ai as u32,
+                    b: bi as u32,
+                    reverse_a: false,
+                };
+                let kinds = op_kind_bits(ev.ops());
+                let of_state = mc::catch(|| hooks::snapshot_accum::accumulator_root(st, &rk));
+                let after = mc::catch(|| {
+                    hooks::snapshot_accum::accumulator_root_after(&pre[ai].real, ev.ops().to_vec(), &rk)
+                });
+                match (of_state, after) {
+                    (Ok((r1, b1)), Ok((r2, b2))) => {
+                        if r1 == r2 {
+                            acc.acc_eq_acc += 1;
+                        } else {
+                            acc.bad.push(("accumulator-apply-root!=accumulator-root-of-store-after-same-ops", kinds, case));
+                        }
+                        if b1 != b2 {
+                            acc.bad.push(("accumulator-apply-wsc-bytes!=accumulator-wsc-bytes-of-store-after-same-ops", kinds, case));
+                        }
+                        if r2 == legacy {
+                            acc.acc_eq_legacy += 1;
+                        } else if r1 == legacy {
+                            // the accumulator agrees with legacy on the state itself, so this is the applier
+                            acc.bad.push(("accumulator-apply-root!=legacy-root-of-store-after-same-ops", kinds, case));
+                        }
+                    }
+                    (_, Err(_)) => acc.bad.push(("accumulator-panics-on-ops-the-store-applies", kinds, case)),
+                    (Err(_), _) => acc.bad.push(("accumulator-panics-on-a-replayed-state", kinds, case)),
+                }
+            }
+            acc
+        })
+        .collect();
+    if r.over_budget() {
+        r.cap_hit(&format!("{}{} accumulator pair phase interrupted by the wall cap", uni.name, uni.level));
+    }
+    let mut pairs = 0;
+    let mut ok = 0;
+    let mut bad: Vec<(&'static str, u8, CaseId)> = Vec::new();
+    for p in parts {
+        pairs += p.pairs;
+        ok += p.ok;
+        t.pairs_acc_eq_acc += p.acc_eq_acc;
+        t.pairs_acc_eq_legacy += p.acc_eq_legacy;
+        bad.extend(p.bad);
+    }
+    t.pairs += pairs;
+    t.pairs_ok += ok;
+    // fold occurrences onto minimal op-kind sets ("generators") per symptom
+    bad.sort_by_key(|(s, k, c)| (*s, k.count_ones(), *k, *c));
+    let mut gens: Vec<(&'static str, u8)> = Vec::new();
+    for (sym, kinds, c) in &bad {
+        let g = match gens.iter().find(|(s, g)| s == sym && (g & kinds) == *g) {
+            Some(g) => *g,
+            None => {
+                gens.push((*sym, *kinds));
+                (*sym, *kinds)
+            }
+        };
+        let names: Vec<&str> = (0..8).filter(|i| g.1 & (1 << i) != 0).map(|i| OP_KINDS[i]).collect();
+        let sig = format!("{}:ops={}", g.0, names.join("+"));
+        add_viol(t, &sig, || {
+            let a = &uni.states[c.a as usize];
+            let b = &uni.states[c.b as usize];
+            let ev = eval_pair(&uni.u, a, &pre[c.a as usize].real, b, &pre[c.b as usize].real, &pre[c.b as usize].root);
+            json!({"case": case_json(uni, c), "patch_ops": ev.ops().iter().map(|o| format!("{o:?}")).collect::<Vec<_>>()})
+        });
+    }
+    r.note(
+        &format!("pairs:{}{}", uni.name, uni.level),
+        json!({"family": match maxd { Some(m) => format!("all ordered pairs a!=b at slot distance <= {m}"), None => "all ordered pairs a!=b".to_string() },
+               "pairs": pairs, "store_apply_ok": ok, "wall_s": ((r.elapsed_s() - t0) * 10.0).round() / 10.0}),
+    );
+}
+
+// ---------------------------------------------------------------------------------------------
+
+fn replay(r: &Report, path: &std::path::Path) {
+    let v: Value = match std::fs::read_to_string(path).ok().and_then(|t| serde_json::from_str(&t).ok()) {
+        Some(v) => v,
+        None => {
+            r.machinery_error("cannot read/parse replay file");
+            return;
+        }
+    };
+    let case = if v["detail"]["case"].is_object() { &v["detail"]["case"] } else { &v["case"] };
+    let name = case["universe"].as_str().unwrap_or("U_A");
+    let level = case["level"].as_u64().unwrap_or(0) as u8;
+    let uni = if name == "U_RAW" { Some(uni_raw()) } else { Uni::by_name(name, level) };
+    let Some(uni) = uni else {
+        r.machinery_error("replay: unknown universe");
+        return;
+    };
+    r.rule("replay of one recorded state / state pair");
+    r.eval(1);
+    r.nontrivial(b"replay");
+    r.nontrivial(b"replay-2");
+    let mut t = new_tot();
+    let mut idxs: Vec<usize> = Vec::new();
+    for k in ["state_index", "i", "j", "a_index", "b_index"] {
+        if let Some(i) = case[k].as_u64() {
+            idxs.push(i as usize);
+        }
+    }
+    if idxs.iter().any(|i| *i >= uni.states.len()) || idxs.is_empty() {
+        r.machinery_error("replay: bad indices");
+        return;
+    }
+    let sub = Uni {
+        name: uni.name.clone(),
+        level: uni.level,
+        u: uni.u.clone(),
+        states: idxs.iter().map(|i| uni.states[*i].clone()).collect(),
+        raw: 0,
+    };
+    for (k, i) in idxs.iter().enumerate() {
+        let o = check_state(&sub.u, &sub.states[k]);
+        println!(
+            "state {i}: {}\n  legacy_root={} accumulator_root={} violations={:?}",
+            sub.states[k].to_json(),
+            mc::hex(&o.root),
+            mc::hex(&o.acc_root),
+            o.viol
+        );
+    }
+    state_phase(r, &mut t, &sub);
+    if sub.states.len() == 2 {
+        pair_phase(r, &mut t, &sub, None);
+    }
+    // the "all-states" roll-up is meaningless on a 1–2 state sub-universe: report it under the
+    // original name only if the recorded signature was that one
+    r.sample(json!({"replayed_case": case}));
+    for (sig, (n, d)) in &t.viol {
+        println!("replay reproduces: {sig} x{n}");
+        r.violation(sig, d.clone());
+    }
+}
+
+fn new_tot() -> Tot {
+    Tot {
+        states: 0,
+        strict_subset: 0,
+        contents: 0,
+        contents_shared: 0,
+        variants: 0,
+        variants_phys: 0,
+        wsc_instances: 0,
+        acc_mismatch: 0,
+        acc_total: 0,
+        acc_wsc_equal: 0,
+        acc_wsc_differs: 0,
+        acc_wsc_equal_iff_fully_reachable: true,
+        pairs: 0,
+        pairs_ok: 0,
+        pairs_acc_eq_acc: 0,
+        pairs_acc_eq_legacy: 0,
+        viol: BTreeMap::new(),
+        keys: HashSet::new(),
+    }
+}
 
 fn main() {
     let r = Report::new("C06", Level::Exploration);
-    r.machinery_error("check not implemented yet");
+    mc::quiet_panics();
+    if let Some(p) = r.replay.clone() {
+        replay(&r, &p);
+        r.finish();
+    }
+    r.rule(
+        "case = one well-formed abstract state of a universe, evaluated on the real code under every construction \
+         order/detour (root, accumulator root, WSC bytes), plus ordered pairs (a,b) for the accumulator-vs-store op application \
+         differential. distinct_nontrivial counts distinct (universe, state) cases; every one computes a real state root over a \
+         store with >= 1 node; counters give how many have unreachable content / share their reachable content with another state.",
+    );
+    r.assume("world::RefState::reachable_content (written from the property text) defines 'content reachable from the root'");
+    r.assume("BLAKE3 collisions are out of scope; injectivity is decided over the enumerated universes only");
+    r.assume("accumulator pair differential is evaluated on pairs whose real apply_to_state returned Ok, against the store *after* that apply (so a C04 defect does not leak into C06)");
+    r.assume("accumulator WSC bytes vs store-writer WSC bytes: equality is not documented by the code (the accumulator writes reachable rows only), recorded as an observation");
+
+    let mut t = new_tot();
+
+    // ---- per-state sub-checks (1)(2)(3a)(4) and (5) --------------------------------------------
+    let mut unis: Vec<Uni> = vec![Uni::a(0), Uni::b(0), uni_raw()];
+    if r.thorough() {
+        unis.push(Uni::a(1));
+        unis.push(Uni::b(1));
+    }
+    for uni in &unis {
+        state_phase(&r, &mut t, uni);
+    }
+    // ---- (3b) pairs ---------------------------------------------------------------------------
+    if r.quick() {
+        pair_phase(&r, &mut t, &unis[0], Some(2));
+        pair_phase(&r, &mut t, &unis[1], Some(4));
+    } else {
+        pair_phase(&r, &mut t, &unis[0], None);
+        pair_phase(&r, &mut t, &unis[1], None);
+        pair_phase(&r, &mut t, &unis[3], Some(2));
+        pair_phase(&r, &mut t, &unis[4], Some(2));
+    }
+
+    // ---- evidence -----------------------------------------------------------------------------
+    r.eval(t.states + t.variants + t.pairs);
+    r.nontrivial_many(t.keys.iter().copied());
+    r.counter("states", t.states);
+    r.counter("states_whose_reachable_content_is_a_strict_subset", t.strict_subset);
+    r.counter("distinct_reachable_contents", t.contents);
+    r.counter("reachable_contents_shared_by_several_states", t.contents_shared);
+    r.counter("construction_variants", t.variants);
+    r.counter("construction_variants_physically_different_from_canonical", t.variants_phys);
+    r.counter("wsc_instance_roundtrips", t.wsc_instances);
+    r.counter("accumulator_root_compared_states", t.acc_total);
+    r.counter("accumulator_root_mismatch_states", t.acc_mismatch);
+    r.counter("pairs_evaluated", t.pairs);
+    r.counter("pairs_store_apply_ok", t.pairs_ok);
+    r.counter("pairs_accumulator_apply_root==accumulator_root_of_applied_store", t.pairs_acc_eq_acc);
+    r.counter("pairs_accumulator_apply_root==legacy_root_of_applied_store", t.pairs_acc_eq_legacy);
+    r.note(
+        "observation:accumulator_wsc_vs_store_writer_wsc",
+        json!({"root_instance_bytes_equal": t.acc_wsc_equal, "root_instance_bytes_differ": t.acc_wsc_differs,
+               "equal_exactly_when_root_instance_fully_reachable": t.acc_wsc_equal_iff_fully_reachable,
+               "status": "not asserted: the code does not document byte equality (accumulator emits reachable rows of the root instance only)"}),
+    );
+    r.outcome_n("states_checked", t.states);
+    r.outcome_n("states_accumulator_root==legacy_root", t.acc_total - t.acc_mismatch);
+    r.outcome_n("states_accumulator_root!=legacy_root", t.acc_mismatch);
+    for (sig, (n, _)) in &t.viol {
+        r.outcome_n(&format!("violation:{sig}"), *n);
+    }
+    r.guard("states>0", t.states > 0);
+    r.guard("states_with_unreachable_content>0", t.strict_subset > 0);
+    r.guard("reachable_contents_shared_by_several_states>0", t.contents_shared > 0);
+    r.guard("physically_different_construction_variants>0", t.variants_phys > 0);
+    r.guard("wsc_roundtrips>0", t.wsc_instances > 0);
+    r.guard("pairs_with_ok_apply>0", t.pairs_ok > 0);
+    r.guard("accumulator_compared>0", t.acc_total > 0);
+
+    for (sig, (n, detail)) in &t.viol {
+        r.violation(sig, detail.clone());
+        for _ in 1..*n {
+            r.violation(sig, Value::Null);
+        }
+    }
     r.finish();
 }
